@@ -241,3 +241,32 @@ theorem genDatumRename_eq (sr : SR α) (h : 2 ≤ sr.datumCode.length) : datumRe
 
 end
 end GeomV.C20
+
+/-! ## wkt.go: parseWKTProjection -/
+namespace GeomV.C20
+open Num
+
+theorem containsSub_single (c : Char) : ∀ d : Str, containsSub d [c] = d.contains c
+  | [] => rfl
+  | x :: r => by
+    have ih := containsSub_single c r
+    simp only [containsSub, List.contains_cons, ih]
+    congr 1
+    by_cases h : x = c
+    · subst h; cases r <;> simp [hasPrefix]
+    · have h' : ¬ c = x := fun e => h e.symm
+      cases r <;> simp [hasPrefix, h, h']
+
+section
+variable {α : Type} [Num α]
+
+omit [Num α] in
+/-- `(*SR).parseWKTProjection` of the current source is the model's: the projection name is the text before the first
+comma (an AUTHORITY may follow) without quotes and blanks, or the whole text without quotes -/
+theorem genWktProjection_eq (sr : SR α) (d : Str) : genWktProjection sr d = parseWKTProjection sr d := by
+  unfold genWktProjection parseWKTProjection
+  rw [show s "," = [','] from rfl, containsSub_single]
+  all_goals (cases d.contains ',' <;> rfl)
+
+end
+end GeomV.C20
